@@ -478,8 +478,11 @@ def write_evidence(prop, tier, seed, t0, results, violations, bounded, samples, 
     ev = {"property_id": prop, "tier": tier, "seed": seed, "level": "proof" if n_obl > 0 else "other",
           "coverage": cov, "assumptions": ASSUMPTIONS + ["assumed contract: " + a for a in assumed],
           "wall_s": round(time.time() - t0, 2), "violations": len(violations)}
-    os.makedirs(os.path.join(VERIF, "evidence"), exist_ok=True)
-    json.dump(ev, open(os.path.join(VERIF, "evidence", f"{prop}.json"), "w"), indent=1, default=str)
+    # runs against a scratch copy of the repository (mutation self-tests) must not overwrite the evidence of /repo
+    evdir = os.path.join(VERIF, "evidence") if os.path.realpath(REPO) == "/repo" else \
+        os.environ.get("PYVC_SCRATCH_EVIDENCE", "/var/tmp/pyvc-scratch-evidence")
+    os.makedirs(evdir, exist_ok=True)
+    json.dump(ev, open(os.path.join(evdir, f"{prop}.json"), "w"), indent=1, default=str)
     return ev
 
 
